@@ -82,7 +82,8 @@ def run_tlc(
         cfg = scratch / f"{module}.cfg"
         cfg.write_text(cfg_text)
         gc = "-XX:+UseSerialGC" if workers == 1 else "-XX:+UseParallelGC"
-        cmd = ["java", "-Xss512m", gc, f"-Xmx{heap}", "-cp", JAR, "tlc2.TLC",
+        # (java.io.tmpdir: TLC leaves an empty tlc-<n> directory per run in the temp dir - keep it inside the scratch dir)
+        cmd = ["java", "-Xss512m", gc, f"-Xmx{heap}", f"-Djava.io.tmpdir={scratch}", "-cp", JAR, "tlc2.TLC",
                "-workers", str(workers), "-metadir", str(scratch / "meta"), "-noGenerateSpecTE",
                "-config", str(cfg)]
         if simulate is not None:
